@@ -147,7 +147,33 @@ func (e *Env) runHandshake() error {
 			e.Res.Probe = &cr
 		}
 	} else {
-		if e.Sc.Aftermath != "" && !e.Res.ConnectHung {
+		switch {
+		case e.Sc.Aftermath == "close" && !e.Res.ConnectHung:
+			// the server hangs up after the reply the client refused; the client's reader sees the end of the stream
+			for _, c := range e.Srv.Conns() {
+				if !c.Closed() {
+					c.Close()
+				}
+			}
+			e.Res.Notes = append(e.Res.Notes, "aftermath sent: close")
+			time.Sleep(100 * time.Millisecond)
+		case e.Sc.Aftermath == "app-reconnect" && !e.Res.ConnectHung:
+			// the application tries again on the same object
+			func() {
+				defer func() { recover() }()
+				done := make(chan struct{})
+				go func() {
+					defer func() { recover(); close(done) }()
+					e.Client.Reconnect()
+				}()
+				select {
+				case <-done:
+				case <-time.After(e.patience()):
+				}
+			}()
+			e.Res.Notes = append(e.Res.Notes, "aftermath sent: app-reconnect")
+		}
+		if e.Sc.Aftermath != "" && e.Sc.Aftermath != "close" && e.Sc.Aftermath != "app-reconnect" && !e.Res.ConnectHung {
 			for _, c := range e.Srv.Conns() {
 				if c.Closed() || !c.AdoptHandshakeKey() {
 					continue
